@@ -207,6 +207,18 @@ def run(ctx):
                 raise MachineryError("vacuous: no program with shape tag %s" % t)
         if stat["spec-agrees"] == 0:
             raise MachineryError("vacuous: no program whose default option set agrees with the spec")
+        # binding self-test: the comparison must tell two different programs apart
+        ea = [p_["env"] for p_ in glist[0][0]["allpts"]]
+        oa = observe(glist[0][0]["prog"], options_of(glist[0][0]["opt"]), ea)
+        diff = None
+        for g in glist[1:]:
+            if g[0]["prog"]["comps"] == glist[0][0]["prog"]["comps"] and g[0]["prog"] != glist[0][0]["prog"]:
+                ob = observe(g[0]["prog"], options_of(g[0]["opt"]), ea)
+                if "exc" not in oa and "exc" not in ob:
+                    diff = not (same(oa["vals"]["dae"], ob["vals"]["dae"]) and same(oa["vals"]["init"], ob["vals"]["init"]))
+                    break
+        if diff is False:
+            raise MachineryError("binding self-test failed: two different programs compare equal")
         ctx.sample({"modelica": ir_eval.render(glist[0][0]["prog"]), "option_sets": [g_["opt"] for g_ in glist[0]]})
         ctx.sample({"modelica": ir_eval.render(glist[-1][0]["prog"]), "option_sets": 8})
         ctx.extra["per_tag_programs"] = cov
